@@ -215,6 +215,9 @@ def run(prop, tier, sd, rep, clauses, modes):
             progs[i] = wb.extract(os.path.join(root, pkg[i]), byid[i])
         builtp = pl.build_drivers(root, sorted({pkg[i] for i in ok}), race=True)
         comp_fail = {i: builtp[pkg[i]] for i in ok if builtp[pkg[i]]}
+        harness_broke = {i: e for i, e in comp_fail.items() if 'verif_' in e or re.search(r'/k\.go:\d+', e) or '/main.go:' in e}
+        if harness_broke:
+            raise pl.ExitTwo('the harness\'s own instrumentation of the generated file does not compile: %s' % json.dumps(list(harness_broke.items())[:2])[:1500])
         ok = [i for i in ok if i not in comp_fail]
         if len(ok) < max(3, len(decls) // 2):
             raise pl.ExitTwo('only %d of %d declarations reached an executable injector (generator refused %d, driver %d, '
